@@ -102,6 +102,9 @@ def scope_map_rules(ctx: Ctx, rule: str) -> None:
         ctx.ob(rule, f"scope-map:{kind}-keys-in-from-order", direct, loc(b.mod, comp),
                f"`for {u(g.target)} in {u(g.iter)}`: on key clashes the last relation wins, so the {kind} map must follow the FROM order of the table group itself")
         only_tables = any("isinstance" in u(c) and "Table" in u(c) for c in g.ifs)
+        further = [u(a_)[:60] for c in g.ifs for a_ in (c.values if isinstance(c, ast.BoolOp) and isinstance(c.op, ast.And) else [c]) if not ("isinstance" in u(a_) and "Table" in u(a_))]
+        ctx.ob(rule, f"scope-map:{kind}-keys-for-every-table", not further, loc(b.mod, comp),
+               f"every table of the group can be named by its {kind} name" + (f"; a further condition `{further[0]}` takes that name away from some tables and their columns fall back to an invented table" if further else ""))
         ctx.ob(rule, f"scope-map:{kind}-keys-only-for-tables", only_tables, loc(b.mod, comp), f"{kind} names are offered for Table relations only (sub-queries are reachable by alias)", trivial=True)
     for kind, comp in kinds:
         if comp is not None and kind == "alias":
